@@ -714,7 +714,10 @@ class _Sig(ast.NodeVisitor):
     def visit_Call(self, node):
         f = node.func
         for a in node.args:
-            self.visit(a)
+            if isinstance(f, ast.Attribute) and f.attr == "_flush_exception" and isinstance(a, ast.Name):
+                self.emit("flush")
+            else:
+                self.visit(a)
         for k in node.keywords:
             self.emit("%s=%s" % (k.arg, ast.unparse(k.value)))
         if isinstance(f, ast.Attribute):
@@ -724,11 +727,16 @@ class _Sig(ast.NodeVisitor):
         elif isinstance(f, ast.Name):
             if f.id == "len":
                 self.emit("len()")
-            elif f.id == "flush":
+            elif self.flush_param is not None and f.id == self.flush_param:
                 self.emit("flush()")
 
+    # the callable handed to _flush_exception: its parameter there, and whatever LOCAL name handle_write
+    # (or any caller) gives it -- the token is "flush" whatever the local is called (cosmetic renames of
+    # function-local names must not change the signature)
+    flush_param = None
+
     def visit_Name(self, node):
-        if node.id in ("flush",):
+        if self.flush_param is not None and node.id == self.flush_param:
             self.emit("flush")
 
     def visit_Constant(self, node):
@@ -745,6 +753,8 @@ def shape_signature(src_path):
             for fn in cls.body:
                 if isinstance(fn, ast.FunctionDef) and fn.name in AUDIT_METHODS:
                     v = _Sig()
+                    if fn.name == "_flush_exception" and len(fn.args.args) > 1:
+                        v.flush_param = fn.args.args[1].arg
                     for s in fn.body:
                         if isinstance(s, ast.Expr) and isinstance(s.value, ast.Constant) and isinstance(s.value.value, str):
                             continue
